@@ -140,12 +140,17 @@ harness!(map_offset_pair_tiny, 8, {
     map_offset_case2(4);
 });
 
-// @harness props=C15 tier=thorough timeout=3000 desc="same for fragments of < 2^32 rows, one lookup (binary search depth 34)"
-harness!(map_offset_full, 36, {
-    map_offset_case1(32);
+// @harness props=C15 tier=thorough timeout=1500 desc="same for fragments of < 2^10 rows, one lookup"
+harness!(map_offset_10bit, 14, {
+    map_offset_case1(10);
 });
 
-// @harness props=C15 tier=thorough timeout=3000 desc="same for fragments of < 2^10 rows, two successive lookups"
-harness!(map_offset_mid, 14, {
-    map_offset_case2(10);
+// @harness props=C15 tier=thorough timeout=1500 desc="same for fragments of < 2^6 rows, two successive lookups"
+harness!(map_offset_pair_6bit, 10, {
+    map_offset_case2(6);
+});
+
+// @harness props=C15 tier=thorough timeout=3000 desc="(attempted; did not finish in 3000 s when last tried) fragments of < 2^32 rows, one lookup (binary search depth 34)"
+harness!(map_offset_full, 36, {
+    map_offset_case1(32);
 });
